@@ -103,6 +103,11 @@ struct Tag {
     done: bool,
     /// the session in which it was sent persists across connections
     persistent: bool,
+    /// the sender announced at a resume that it dropped the stored copy (larger than the
+    /// peer's Maximum Packet Size once the alias is replaced by the full topic)
+    dropped: bool,
+    /// the stored form (full topic, no alias) exceeds the peer's Maximum Packet Size
+    stored_oversize: bool,
 }
 
 pub struct End {
@@ -238,6 +243,25 @@ impl Pair {
 
     /// the application of `side` handles an event list, in order
     fn handle(&mut self, side: Side, evs: &[Ev], from_recv_or_timer: bool) {
+        let resume_list = evs.iter().any(|e| matches!(e, Ev::Recv { pkt } | Ev::Send { pkt, .. } if pkt.kind == wire::CONNACK));
+        if resume_list {
+            for e in evs {
+                if let Ev::Released(id) = e {
+                    for t in self.tags.values_mut() {
+                        if t.from == side && t.id == Some(*id) && t.accepted && !t.done {
+                            if t.stored_oversize {
+                                t.dropped = true;
+                                self.stats.hit("c01_stored_copy_dropped_as_oversize");
+                            } else {
+                                let m = format!("{:?} dropped the stored copy of tag {} at the resume although it fits the peer's Maximum Packet Size", side, String::from_utf8_lossy(&t.payload));
+                                self.viol = Some(Violation { props: vec!["C01", "C14", "C06"], class: "stored-packet-dropped-within-limit".into(), msg: m, step: self.steps as usize });
+                                return;
+                            }
+                        }
+                    }
+                }
+            }
+        }
         for e in evs {
             match e {
                 Ev::Send { bytes, .. } => {
@@ -434,7 +458,12 @@ impl Pair {
     /// an exchange is complete at the sender once its id left the sender's in-flight list
     fn update_done(&mut self) {
         let out: [BTreeSet<u32>; 2] = [self.ends[0].w.m.out.iter().map(|o| o.id).collect(), self.ends[1].w.m.out.iter().map(|o| o.id).collect()];
+        let server_parked = self.server_durable.is_some();
         for t in self.tags.values_mut() {
+            if t.from == Side::S && server_parked {
+                // the broker's session is parked in its store: nothing completes meanwhile
+                continue;
+            }
             if t.accepted && t.qos > 0 && !t.done {
                 if let Some(id) = t.id {
                     if !out[t.from.ix()].contains(&id) {
@@ -518,14 +547,35 @@ impl Pair {
                 self.tag += 1;
                 let tag = self.tag;
                 let mut pl = format!("m{tag}").into_bytes();
-                pl.extend(std::iter::repeat(b'x').take(*pad as usize));
+                if *pad < crate::solo::PAD_AT_LIMIT_MINUS_1 {
+                    pl.extend(std::iter::repeat(b'x').take(*pad as usize));
+                } else if let Some(l) = self.ends[side.ix()].w.m.mps_send {
+                    // symbolic pad: size the packet to the peer's Maximum Packet Size (or one off)
+                    p.payload = pl.clone();
+                    if *qos > 0 {
+                        p.id = Some(1);
+                    }
+                    let base = wire::encode(&p, self.ends[side.ix()].w.idw).len() as i64;
+                    let want = l as i64 + (*pad as i64 - crate::solo::PAD_AT_LIMIT as i64);
+                    if want > base && want - base < 120 {
+                        pl.extend(std::iter::repeat(b'x').take((want - base) as usize));
+                    }
+                    p.id = None;
+                }
                 p.payload = pl.clone();
-                self.tags.insert(tag, Tag { from: *side, qos: *qos, topic: intended, payload: pl, accepted: false, cut: false, conn: self.conn_no, delivered: 0, id: None, done: false, persistent: self.ends[side.ix()].w.m.persistent });
+                self.tags.insert(tag, Tag { from: *side, qos: *qos, topic: intended, payload: pl, accepted: false, cut: false, conn: self.conn_no, delivered: 0, id: None, done: false, persistent: self.ends[side.ix()].w.m.persistent, dropped: false, stored_oversize: false });
                 let evs = if *qos > 0 {
                     let Some(id) = self.take_id(*side) else { return };
                     p.id = Some(id);
+                    let mut sp = p.clone();
+                    sp.dup = true;
+                    sp.topic = self.tags[&tag].topic.clone();
+                    sp.props.retain(|x| !matches!(x, Prop::TopicAlias(_)));
+                    let ssz = wire::encode(&sp, self.ends[side.ix()].w.idw).len();
+                    let over = self.ends[side.ix()].w.m.mps_send.map_or(false, |l| ssz > l as usize);
                     if let Some(t) = self.tags.get_mut(&tag) {
                         t.id = Some(id);
+                        t.stored_oversize = over;
                     }
                     self.send_with_id(*side, &p)
                 } else {
@@ -847,10 +897,17 @@ impl Pair {
                 }
                 continue;
             }
-            let must = tg.persistent || !tg.cut;
+            let must = (tg.persistent || !tg.cut) && !tg.dropped;
             match tg.qos {
                 2 => {
                     if (must && tg.delivered != 1) || tg.delivered > 1 {
+                        // follow-up of K04: the id is still 'handled' at the receiver because an earlier
+                        // message with it was delivered and then dropped by the sender at a resume
+                        let residue = tg.delivered == 0 && self.tags.iter().any(|(t2, o)| t2 < t && o.from == tg.from && o.qos == 2 && o.id == tg.id && o.dropped && o.delivered > 0);
+                        if residue {
+                            err = Some(("qos2-stored-copy-dropped-after-delivery".into(), format!("tag {t}: swallowed as a duplicate of an earlier message whose stored copy was dropped as oversize after delivery")));
+                            break;
+                        }
                         err = Some(("qos2-not-exactly-once".into(), format!("tag {t} from {:?} delivered {} times (cut by a loss: {}, persistent: {})", tg.from, tg.delivered, tg.cut, tg.persistent)));
                         break;
                     }
@@ -896,7 +953,14 @@ impl Pair {
                 return;
             }
             if !handled.is_empty() {
-                self.flag("handled-not-empty-at-quiescence", format!("{:?}: {:?}", side, handled));
+                // residue of a QoS 2 message that reached the receiver and whose stored copy the
+                // sender then dropped as oversize at the resume: no PUBREL will ever come
+                let residue = handled.iter().all(|h| self.tags.values().any(|t| t.from != side && t.qos == 2 && t.dropped && t.delivered > 0 && t.id == Some(*h)));
+                if residue {
+                    self.flag("qos2-stored-copy-dropped-after-delivery", format!("{:?} keeps handled ids {:?}: the sender accepted an alias-only QoS 2 PUBLISH that fits the peer's Maximum Packet Size, the receiver got it, the transport was lost, and at the resume the stored copy (full topic) was dropped as oversize: the exchange is never finished and the id stays 'handled' at the receiver", side, handled));
+                } else {
+                    self.flag("handled-not-empty-at-quiescence", format!("{:?}: {:?}", side, handled));
+                }
                 return;
             }
             if self.up && e.w.m.st == St::Connected && self.cfg.wire_v == 5 && vac != rm {
@@ -1016,7 +1080,7 @@ pub fn gen_pop(p: &Pair, r: &mut Rng) -> POp {
             let a = r.range(1, tam.min(3) as u64) as u8;
             alias = if r.chance(1, 3) { 0x80 | a } else { a };
         }
-        POp::Pub { side, qos: *r.pick(&[0u8, 1, 1, 2, 2]), topic: r.below(3) as u8, alias, pad: if r.chance(1, 5) { r.below(30) as u16 } else { 0 }, fail: c.f_writefail && r.chance(1, 40) }
+        POp::Pub { side, qos: *r.pick(&[0u8, 1, 1, 2, 2]), topic: r.below(3) as u8, alias, pad: if p.ends[side.ix()].w.m.mps_send.is_some() && r.chance(1, 4) { *r.pick(&[crate::solo::PAD_AT_LIMIT_MINUS_1, crate::solo::PAD_AT_LIMIT, crate::solo::PAD_AT_LIMIT, crate::solo::PAD_AT_LIMIT_PLUS_1]) } else if r.chance(1, 5) { r.below(30) as u16 } else { 0 }, fail: c.f_writefail && r.chance(1, 40) }
     };
     match r.weighted(&w) {
         0 => POp::Deliver { to: Side::C, n: if c.f_chunk && r.chance(1, 2) { r.range(1, 9) as u16 } else { 0 } },
